@@ -50,7 +50,7 @@ C01_FILES = ('src/cvt_mus2mid.hpp', 'src/cvt_xmi2mid.hpp', 'src/midi_sequencer_i
 
 
 def views(tier):
-    return ['V0'] if tier == 'quick' else ['V0', 'V1', 'noVGM', 'noSEQ', 'noNUKED', 'noMAME', 'noGENS', 'noYMFM', 'noNP2', 'noMAME2608']
+    return ['V0', 'V1'] if tier == 'quick' else ['V0', 'V1', 'noVGM', 'noSEQ', 'noNUKED', 'noMAME', 'noGENS', 'noYMFM', 'noNP2', 'noMAME2608']
 
 
 def fn_file(facts, name):
